@@ -165,3 +165,23 @@ Proof.
   rewrite go_mul_I64 by (rewrite ?pow63'; lia).
   unfold go_cast, go_wrap. rewrite wrapU_id by lia. reflexivity.
 Qed.
+
+(* ---- validateLowEntropyCodecParams: the gate in front of the codec and of the metadata check ---- *)
+Lemma go_popP_eq p : go_popP p = Z.of_N (popP p).
+Proof. induction p as [q IH|q IH|]; cbn [go_popP popP]; rewrite ?IH; lia. Qed.
+
+Lemma go_popcount_of_N (m : N) : go_popcount (Z.of_N m) = Z.of_N (popcount m).
+Proof. destruct m as [|p]; [reflexivity|]. cbn [Z.of_N go_popcount popcount]. apply go_popP_eq. Qed.
+
+(* the source as it is now accepts exactly the parameter triples validate_params accepts (mode of the table, half mask of
+   the mode's weight - counted bit by bit, not estimated -, valid rotation) and returns the mode's parameters *)
+Theorem xl_validateLowEntropyCodecParams_eq_model (mode : Z) (hm : N) (rot : Z) : - 2 ^ 31 <= rot < 2 ^ 31 ->
+  xl_protocol_validateLowEntropyCodecParams mode (Z.of_N hm) rot =
+  match validate_params mode hm rot with Ok (c, w) => ((c, w), false) | Err _ => ((0, 0), true) end.
+Proof.
+  intro Hr. unfold xl_protocol_validateLowEntropyCodecParams, validate_params.
+  rewrite xl_buildLowEntropyParams_eq_mode_params, go_popcount_of_N, xl_isValidLowEntropyRotation_eq_model by exact Hr.
+  destruct (mode_params mode) as [[c w]|]; cbn [Bool.eqb negb]; [|reflexivity].
+  destruct (Z.of_N (popcount hm) =? w); cbn [negb]; [|reflexivity].
+  destruct (valid_rotation rot); reflexivity.
+Qed.
